@@ -284,3 +284,136 @@ for i in 9 {
 }
 println(p.l[0] .. p.r[0] .. q.l[0] .. q.r[0])
 """)
+
+
+# The next kernels delay the scan of a container: it is the FIRST heap local (so it sits at the bottom of
+# the gray stack, which is processed last-in-first-out) and 14 more heap locals follow. With one
+# object marked per instruction, a value can be taken out of the container (pop / field load /
+# element load) and the slot overwritten before the container is scanned: the value is then
+# reachable only from the operand stack and only the root rescan at mark termination finds it -
+# and it has heap children of its own that must still be traced.
+k("late-pop-container", """
+let outer: array<array<string>> = []
+let fl0 = ["f" .. 0]
+let fl1 = ["f" .. 1]
+let fl2 = ["f" .. 2]
+let fl3 = ["f" .. 3]
+let fl4 = ["f" .. 4]
+let fl5 = ["f" .. 5]
+let fl6 = ["f" .. 6]
+let fl7 = ["f" .. 7]
+let fl8 = ["f" .. 8]
+let fl9 = ["f" .. 9]
+let fl10 = ["f" .. 10]
+let fl11 = ["f" .. 11]
+let fl12 = ["f" .. 12]
+let fl13 = ["f" .. 13]
+for i in 5 { outer.push(["s" .. i, "t" .. i]) }
+var out = ""
+while outer.len() > 0 {
+  let e = outer.pop()
+  let pad = ["p" .. out.len()]
+  out = out .. e[0] .. e[1] .. pad[0]
+}
+println(out)
+println(fl0[0] .. fl13[0])
+""")
+
+k("late-field-container", """
+type Holder = {
+  inner: array<string>
+}
+let h = Holder(["a" .. 0, "b" .. 0])
+let fl0 = ["f" .. 0]
+let fl1 = ["f" .. 1]
+let fl2 = ["f" .. 2]
+let fl3 = ["f" .. 3]
+let fl4 = ["f" .. 4]
+let fl5 = ["f" .. 5]
+let fl6 = ["f" .. 6]
+let fl7 = ["f" .. 7]
+let fl8 = ["f" .. 8]
+let fl9 = ["f" .. 9]
+let fl10 = ["f" .. 10]
+let fl11 = ["f" .. 11]
+let fl12 = ["f" .. 12]
+let fl13 = ["f" .. 13]
+var out = ""
+for i in 5 {
+  let got = h.inner
+  h.inner = ["a" .. (i + 1), "b" .. (i + 1)]
+  let pad = ["q" .. i]
+  out = out .. got[0] .. got[1] .. pad[0]
+}
+println(out)
+println(h.inner)
+println(fl0[0] .. fl13[0])
+""")
+
+k("late-element-struct", """
+type Job = {
+  message: string
+  id: int
+}
+type Tagged = {
+  scratch: array<int>
+  job: Job
+}
+let jobs: array<Job> = []
+let fl0 = ["f" .. 0]
+let fl1 = ["f" .. 1]
+let fl2 = ["f" .. 2]
+let fl3 = ["f" .. 3]
+let fl4 = ["f" .. 4]
+let fl5 = ["f" .. 5]
+let fl6 = ["f" .. 6]
+let fl7 = ["f" .. 7]
+let fl8 = ["f" .. 8]
+let fl9 = ["f" .. 9]
+let fl10 = ["f" .. 10]
+let fl11 = ["f" .. 11]
+let fl12 = ["f" .. 12]
+let fl13 = ["f" .. 13]
+var out = ""
+for i in 5 {
+  jobs.push(Job("payload " .. i, i))
+  let tagged = Tagged([0, 0, 0, 0], jobs.pop())
+  let j = tagged.job
+  out = out .. j.message .. j.id
+}
+println(out)
+println(fl0[0] .. fl13[0])
+""")
+
+k("late-variant-payload", """
+type Wrap =
+  | Empty
+  | Full(array<string>)
+let ws: array<Wrap> = []
+let fl0 = ["f" .. 0]
+let fl1 = ["f" .. 1]
+let fl2 = ["f" .. 2]
+let fl3 = ["f" .. 3]
+let fl4 = ["f" .. 4]
+let fl5 = ["f" .. 5]
+let fl6 = ["f" .. 6]
+let fl7 = ["f" .. 7]
+let fl8 = ["f" .. 8]
+let fl9 = ["f" .. 9]
+let fl10 = ["f" .. 10]
+let fl11 = ["f" .. 11]
+let fl12 = ["f" .. 12]
+let fl13 = ["f" .. 13]
+var out = ""
+for i in 5 {
+  ws.push(Wrap.Full(["v" .. i, "w" .. i]))
+  let w = ws.pop()
+  let pad = ["r" .. i]
+  match w {
+    .Full(xs) -> { out = out .. xs[0] .. xs[1] .. pad[0] }
+    .Empty -> { out = out .. "?" }
+  }
+}
+println(out)
+println(fl0[0] .. fl13[0])
+""")
